@@ -2,4 +2,7 @@ verus! {
 pub mod util { pub mod basic { pub type SError = String; } }
 /// stand-in for the lopdf crate's document type (opaque)
 pub mod lopdf { use vstd::prelude::*; #[verifier::external_body] pub struct Document { x: u8 } }
+pub mod pdfx { use vstd::prelude::*; /// stand-in for pdf_extract::OutputError
+#[verifier::external_body] pub struct ExtractErr { x: u8 }
+impl ExtractErr { #[verifier::external_body] pub fn to_string(&self) -> String { unimplemented!() } } }
 } // verus!
